@@ -271,6 +271,41 @@ func Run(c *engine.Ctx) {
 		shapes("n3-e3", abc, abc, types2, abcx, 3)
 	}
 
+	// every edge type (and two undeclared numbers): chains and fans that are only connected through that type
+	c.Group("edge-types")
+	var ets []int
+	for t := range sbom.Edge_Type_name {
+		ets = append(ets, int(t))
+	}
+	ets = append(ets, 45, 99, -1)
+	sort.Ints(ets)
+	c.Bound("edge-types", fmt.Sprintf("%d edge type numbers (all declared + undeclared) x 3 shapes (chain, fan, chain behind a contains edge) x root subsets {none, start, middle} x every start", len(ets)))
+	for _, et := range ets {
+		ty := sbom.Edge_Type(et)
+		for si, edges := range [][]gen.EdgeSpec{
+			{{From: "a", Type: ty, To: []string{"b"}}, {From: "b", Type: ty, To: []string{"c"}}},
+			{{From: "a", Type: ty, To: []string{"b", "c"}}},
+			{{From: "a", Type: sbom.Edge_contains, To: []string{"b"}}, {From: "b", Type: ty, To: []string{"c"}}, {From: "c", Type: ty, To: []string{"a"}}},
+		} {
+			for _, roots := range [][]string{nil, {"a"}, {"b"}} {
+				for _, st := range abc {
+					spec := gen.ListSpec{Nodes: abc, Edges: edges, Roots: roots}
+					st, si, et := st, si, et
+					c.Case(func() any { return caseDesc{List: spec, Start: st} }, func(t *engine.T) *engine.Violation {
+						nl := spec.Build()
+						obs, v := runAll(t, nl, st, 4)
+						if v != nil {
+							return v
+						}
+						t.State(fmt.Sprintf("type%d|shape%d|%v|%s", et, si, roots, st))
+						t.Outcome(outcomeClass(obs))
+						return nil
+					})
+				}
+			}
+		}
+	}
+
 	// order independence: every permutation of node list and edge list
 	permGroup := func(group string, ids []string, types []sbom.Edge_Type, nEdges int) {
 		c.Group(group)
